@@ -30,7 +30,7 @@ def items(tier):
             continue
         # thorough: every configuration of the grid at L = 3 (FindIndex), the quick grid for Match / FindAll / submatch,
         # and L = 4 under the two most different configurations for the deep entries
-        for g in G12:
+        for g in (G12 if corpus.deep(tags) else QG):
             out.append(mk("C12", p, "FindIndex", 3, a, extra=g, strategy=strat))
         for g in QG:
             out.append(mk("C12", p, "Match", 3, a, extra=g, strategy=strat))
